@@ -179,7 +179,69 @@ def check(ctx):
     r_scenario(ctx)
     r3(ctx)
     r4(ctx, sch)
+    ctx.attempt(r_queries)
     r5(ctx, sch)
+
+
+def r_queries(ctx):
+    """children() / parents() evaluated on the created model database for every stored feature x level x featuretype (id and
+    Feature argument, with order_by): the returned ids are the Parent graph's, each once, x never its own relative, parents the
+    inverse of children."""
+    from . import scen
+    fc = require_func(ctx, "interface.FeatureDB.children")
+    fp = require_func(ctx, "interface.FeatureDB.parents")
+    base = scen.gff_lines()
+    bad = {}
+    n_q = 0
+    for o in (list(range(len(base))), list(range(len(base)))[::-1]):
+        lines = [scen.feature(f.name, f.attrs["featuretype"], f.attrs["start"], f.attrs["end"], f.attrs["attributes"], strand=f.attrs["strand"]) for f in (base[i] for i in o)]
+        im, t = scen.run_create(ctx, "_GFFDBCreator", lines)
+        if not scen.returned(ctx, t, "create()", func=fc, rule="R4"):
+            return
+        it, me, conn, t0 = scen.open_feature_db(ctx, im.db)
+        if not scen.returned(ctx, t0, "FeatureDB(dbfn)", func=fc, rule="R4"):
+            return
+        it.summaries["interface.FeatureDB._feature_returner"] = lambda i, pos, kw, node: kw.get("id")
+        ids = [f.attrs["id"] for f in lines]
+        rec = {f.attrs["id"]: f for f in lines}
+        stored = set(ids)
+        rel = scen.expected_relations(lines, ids)
+        label0 = "file order" if o[0] == 0 else "reversed file"
+
+        def ask(qual, **kw):
+            tr = scen.call_method(ctx, it, me, qual, **kw)
+            if tr.result[0] != "return":
+                return "raises %s" % (tr.result[1],)
+            try:
+                return list(tr.result[1])
+            except TypeError:
+                return "not iterable"
+        for x in ids:
+            for level in (None, 1, 2):
+                for ft in (None, "exon", ("exon", "mRNA")):
+                    for meth, f_, a, b in (("children", fc, 0, 1), ("parents", fp, 1, 0)):
+                        fts = None if ft is None else ([ft] if isinstance(ft, str) else list(ft))
+                        want = sorted({r[b] for r in rel if r[a] == x and (level is None or r[2] == level) and r[b] in stored and
+                                       (fts is None or rec[r[b]].attrs["featuretype"] in fts)}, key=str)
+                        for arg in ((x, rec[x]) if (level is None and ft is None) else (x,)):
+                            n_q += 1
+                            got = ask("interface.FeatureDB." + meth, id=arg, level=level, featuretype=ft)
+                            lab = "%s(%s, level=%s, featuretype=%s), %s" % (meth, "a Feature" if arg is not x else "an id", level, ft, label0)
+                            if not isinstance(got, list) or sorted(got, key=str) != want:
+                                bad.setdefault(lab, "%s(%r) returns %s, the Parent graph gives %s" % (meth, x, got, want))
+                            elif x in got:
+                                bad.setdefault(lab, "%s(%r) lists the feature itself" % (meth, x))
+            n_q += 1
+            got = ask("interface.FeatureDB.children", id=x, order_by="start")
+            if isinstance(got, list):
+                st = [rec[i].attrs["start"] for i in got]
+                if st != sorted(st) or sorted(got, key=str) != sorted({r[1] for r in rel if r[0] == x and r[1] in stored}, key=str):
+                    bad.setdefault("children(order_by='start'), %s" % label0, "children(%r, order_by='start') returns %s (starts %s)" % (x, got, st))
+            else:
+                bad.setdefault("children(order_by='start'), %s" % label0, "children(%r, order_by='start') %s" % (x, got))
+    ctx.ob("R4", not bad, "children()/parents() of every stored feature, per level and featuretype, by id and by Feature, are exactly the Parent graph's (each once, never "
+           "the feature itself, parents the inverse of children; %d queries on a created model database, two line orders)" % n_q, func=fc,
+           sig="children/parents agree with the Parent graph" if not bad else "; ".join("%s: %s" % kv for kv in sorted(bad.items())[:3])[:700])
 
 
 # ------------------------------------------------------------------------------------------------ scenario rules
